@@ -554,6 +554,38 @@ void h_c02_substr(void)
     VERIF_COVER(in_v1.as.i64 > (int64_t)4294967296);
 }
 
+/* ---- C02.vm.STR_CHAR_AT[.oob]: (char_at s i): in range: the byte at i as an unsigned value 0..255 (docs/STDLIB.md; the emitted
+ * native char_at returns (unsigned char)s[index]); .oob: out of range the VM must agree with the compiled program, which prints an
+ * error and yields 0 (the documentation says "terminate"; the VM yields -1: recorded finding).  B(strings of <= 3 bytes, no NUL inside). ---- */
+void h_c02_charat(void)
+{
+    build_state();
+    VmState *vm = g_vm;
+    __CPROVER_assume(in_stack_size >= 2 && in_v1.tag == TAG_STRING && in_v0.tag == TAG_INT);
+    VmString *src = in_v1.as.string;
+    __CPROVER_assume(src->header.ref_count >= 2);
+    for (uint32_t i = 0; i < 3; i++) if (i < src->length) __CPROVER_assume(src->data[i] != 0);
+    int64_t slen = src->length, idx = in_v0.as.i64;
+    _Bool in_range = idx >= 0 && idx < slen;
+#ifdef VERIF_CHARAT_OOB
+    __CPROVER_assume(!in_range);
+#else
+    __CPROVER_assume(in_range);
+#endif
+    int64_t want = in_range ? (int64_t)(unsigned char)src->data[in_range ? idx : 0] : 0;
+    uint32_t ss0 = vm->stack_size;
+    VmTrap t = vm_core_execute(vm);
+    __CPROVER_assert(t.type == TRAP_HALT || t.type == TRAP_NONE, "C02.vm STR_CHAR_AT does not trap");
+    __CPROVER_assert(vm->stack_size == ss0 - 1, "C02.vm STR_CHAR_AT consumes two operands, pushes one result");
+    NanoValue r = vm->stack[vm->stack_size - 1];
+    __CPROVER_assert(r.tag == TAG_INT && r.as.i64 == want, "C02.vm STR_CHAR_AT value == the compiled program's (unsigned byte in range; 0 out of range)");
+#ifdef VERIF_CHARAT_OOB
+    VERIF_COVER(idx < 0); VERIF_COVER(idx > (int64_t)4294967296);
+#else
+    VERIF_COVER(idx == 2 && want >= 128);
+#endif
+}
+
 /* ---- C14.step.ARR_SLICE.bounded: the census of (array_slice a start length) for an array whose slots hold ints or DISTINCT
  * strings, whatever the array's elem_type tag says: every string copied into the result gains exactly one count (the new
  * reference), strings outside the slice keep theirs, the source array loses the reference popped from the stack.
